@@ -52,7 +52,7 @@ def run(ctx: Context) -> None:
     pool_f = ctx.names("async").func("connection_pool", "AsyncConnectionPool.handle_async_request")
     accepted = set()
     for n in own_nodes(pool_f.node):
-        if isinstance(n, ast.Compare) and isinstance(n.ops[0], ast.NotIn) and norm(n.left) == "scheme" and isinstance(n.comparators[0], ast.Tuple):
+        if isinstance(n, ast.Compare) and isinstance(n.ops[0], (ast.NotIn, ast.In)) and norm(n.left) == "scheme" and isinstance(n.comparators[0], (ast.Tuple, ast.List, ast.Set)):
             accepted = {e.value.encode() for e in n.comparators[0].elts if isinstance(e, ast.Constant)}
     rep.ob("C19.R1", "shared|tables|cover-pool-schemes", bool(accepted) and accepted <= set(ot) and accepted <= set(dp), where(pool_f), f"schemes accepted by the pool {sorted(accepted)} are in both tables")
     rep.ob("C19.R1", "shared|tables|cover-proxy-schemes", {b"socks5", b"socks5h", b"http", b"https"} <= set(ot), where(origin_f, tables[0]), "proxy schemes have a default port in the origin table")
@@ -85,14 +85,17 @@ def run(ctx: Context) -> None:
     if len(parse_calls) != 1:
         raise AnalysisError(f"anchor vanished: URL parsing call in URL.__init__ ({len(parse_calls)} found)")
     parser = (chain(parse_calls[0].func) or [""])[-1]
-    tstore = [n for n in own_nodes(uinit.node) if isinstance(n, ast.Assign) and norm(n.targets[0]) == "self.target" and "parsed" in norm(n.value)]
-    read = {a.attr for st in tstore for a in ast.walk(st.value) if isinstance(a, ast.Attribute) and norm(a.value) == "parsed"}
+    # the value stored as the target, with local temporaries (`path = parsed.path or b"/"`) expanded
+    cand = [n for n in own_nodes(uinit.node) if isinstance(n, ast.Assign) and norm(n.targets[0]) == "self.target"]
+    expanded = {id(n): (ctx.prov.expand(n.value, uinit, n, pure=True) or [n.value]) for n in cand}
+    tstore = [n for n in cand if any("parsed" in norm(a) for a in expanded[id(n)])]
+    read = {a.attr for st in tstore for alt in expanded[id(st)] for a in ast.walk(alt) if isinstance(a, ast.Attribute) and norm(a.value) == "parsed"}
     need = PARSER_COMPONENTS[parser]
     ok = bool(tstore) and need <= read and not (read & FORBIDDEN_COMPONENTS)
     rep.ob("C19.R4", "shared|URL.__init__|target-components", ok, where(uinit, tstore[0] if tstore else None),
            f"{parser}() separates {sorted(need)}; the target reads {sorted(read)}" + ("" if ok else f" - missing {sorted(need - read)}: that part of the URL never reaches the request target"))
     if tstore:
-        v = tstore[0].value
+        v = expanded[id(tstore[0])][0]
         rows = {}
         for path, query in ((b"", b""), (b"/p", b""), (b"/p", b"q=1"), (b"", b"q")):
             got = peval(v, {"parsed.path": path, "parsed.query": query, "parsed.params": b""})
